@@ -373,8 +373,23 @@ pub fn make_inputs(seed: u64, tier: Tier, ticks: bool) -> Inputs {
         // position further on
         sources[1] = format!("pass\n{}", sources[0]);
     }
-    match r.below(10) {
+    match r.below(11) {
         0 => Inputs { kind: "unused-captures".into(), text: unused_captures_program(&mut r), sources, globs: vec![], alt_globs: vec![vec![]], variants: vec![] },
+        10 => {
+            // string functions of the standard library whose arguments agree between calls
+            // except for one that comes from a global: what they return is a function of all
+            // their arguments, in this call (no memory of an earlier call on the thread)
+            let s = |x: &str| simrun::GVal::Str(x.into());
+            let supply = |rep: &str, sep: &str| vec![("rep".to_string(), s(rep)), ("sep".to_string(), s(sep))];
+            Inputs {
+                kind: "string-functions-with-global".into(),
+                text: "global rep\nglobal sep\n\n(identifier) @i\n{\n  node n\n  attr (n) r1 = (replace (source-text @i) \"[a-z]\" rep), r2 = (replace \"banana\" \"an\" rep), j = (join [(source-text @i), rep] sep), f = (format \"{}{}\" rep sep)\n}\n".into(),
+                sources,
+                globs: supply("A", "-"),
+                alt_globs: vec![supply("A", "-"), supply("B", "-"), supply("", "+"), supply("another value", "")],
+                variants: vec![],
+            }
+        }
         3 => Inputs {
             // every syntax function of the standard library applied to every statement and
             // identifier: what they return is a function of the node, not of its address
